@@ -86,6 +86,19 @@ theorem tie_translated_augment_values_unchanged (s : Snapshot) (r : Snapshot × 
   exact AugGlue.augment_values_unchanged_snapshot ff _ s.goroutines r.1.goroutines r.2
     (toOption_some ht.symm)
 
+/-- **never a changed frame** (C19), about the code as translated: the snapshot returned has
+as many goroutines, and each goroutine as many frames, as the one given -/
+theorem tie_translated_augment_shape (s : Snapshot) (r : Snapshot × Option AugGlue.ErrKind)
+    (h : TrG.augment (TrG.modelEnv rf (fun _ => pf') (fun s => some (AugGlue.lineToByteOffsets s))
+        (acOf eat ff decl)) s = some r) :
+    r.1.goroutines.length = s.goroutines.length ∧
+    ∀ (i : Nat) (g g' : Goroutine), s.goroutines[i]? = some g → r.1.goroutines[i]? = some g' →
+      g'.sig.stack.calls.length = g.sig.stack.calls.length := by
+  have ht := tie_augment_full eat ff decl rf pf' s
+  rw [h] at ht
+  simp only [Option.map_some] at ht
+  exact AugGlue.augment_shape_snapshot ff _ s.goroutines r.1.goroutines r.2 (toOption_some ht.symm)
+
 /-- **mismatching or hostile sources never crash it** (C03/C19), about the code as translated:
 when `extractArgumentsType` never yields an empty type list with the ellipsis flag (it cannot:
 `Spec.flag_needs_type`), the translated `(*Snapshot).augment` over the translated `augmentCall`
@@ -152,3 +165,4 @@ end PP.GlueAug
 #print axioms PP.GlueAug.tie_translated_augment_values_unchanged
 #print axioms PP.GlueAug.tie_translated_augment_no_panic
 #print axioms PP.GlueAug.tie_translated_augment_no_panic_model
+#print axioms PP.GlueAug.tie_translated_augment_shape
